@@ -99,6 +99,8 @@ type Exec struct {
 	vfs      *VFS
 	accessLog []accessRec
 	trackLocks bool
+	muHeld     int
+	raftCells  int
 
 	// accumulated across paths (owned by this worker)
 	res *HarnessResult
